@@ -2,6 +2,7 @@ from __future__ import annotations
 
 import json
 import os.path
+import re
 from pathlib import Path
 from typing import Any, Literal, Optional
 
@@ -195,6 +196,8 @@ class LocalDirectoryContext(Context):
 
     def store_annotation(self, name: str, annotation: str):
         path = self._annotations_path
+        # NOTE: One line per annotation: backslashes and line breaks are escaped
+        annotation = annotation.replace('\\', '\\\\').replace('\n', '\\n').replace('\r', '\\r')
         with self._write_lock(path):
             with open(path, 'r') as fh:
                 lines = []
@@ -218,7 +221,7 @@ class LocalDirectoryContext(Context):
                 for line in fh.readlines():
                     a = line.split(" ", 1)
                     if a[0] == name:
-                        return a[1][:-1]
+                        return _unescape_annotation(a[1][:-1])
         raise KeyError(f"No annotation for {name} available")
 
     def store_message(self, severity, ctxpath: str, date, message: str):
@@ -266,6 +269,11 @@ class LocalDirectoryContext(Context):
         path = self.path / 'subcontexts'
         ctx = LocalDirectoryContext(name=name, ref=path)
         return ctx
+
+
+def _unescape_annotation(s: str) -> str:
+    escapes = {'n': '\n', 'r': '\r', '\\': '\\'}
+    return re.sub(r'\\(.)', lambda m: escapes.get(m.group(1), m.group(0)), s)
 
 
 class MetadataJSONEncoder(json.JSONEncoder):
